@@ -223,6 +223,12 @@ def docTpDamperForce (sqrt : K → K) (c : K) (X1 X2 : Pose K) (V1 V2 : Vel K) (
   let v := dot (stationVel X2 V2 s2 - stationVel X1 V1 s1) d
   (applyAt (P1 - X1.p) (smul (c * v) d), applyAt (P2 - X2.p) (-(smul (c * v) d)))
 
+/-- `Force::TwoPointLinearDamperImpl::calcPotentialEnergy`: `return 0` -/
+def tpDamperPE : K := 0
+
+/-- `Force::TwoPointConstantForceImpl::calcPotentialEnergy`: `return 0` -/
+def tpConstPE : K := 0
+
 /-- `Force::TwoPointConstantForceImpl::calcForce` -/
 def tpConstForce (sqrt : K → K) (force : K) (X1 X2 : Pose K) (s1 s2 : V3 K) : SpF K × SpF K :=
   let s1_G := X1.R.mulVec s1
@@ -253,6 +259,10 @@ def constForce (X : Pose K) (station force : V3 K) : SpF K :=
 /-- documented: "A constant force applied to a body station. The force is a vector fixed forever in the Ground frame" -/
 def docConstForce (X : Pose K) (station force : V3 K) : SpF K := applyAt (X.apply station - X.p) force
 
+/-- `Force::ConstantForceImpl::calcPotentialEnergy`, `ConstantTorqueImpl::calcPotentialEnergy`: `return 0` -/
+def constForcePE : K := 0
+def constTorquePE : K := 0
+
 /-- `Force::ConstantTorqueImpl::calcForce`: `bodyForces[body][0] += torque` -/
 def constTorque (torque : V3 K) : SpF K := ⟨torque, V3.zero⟩
 
@@ -275,6 +285,11 @@ def docMobDamperForce (c u : K) : K := -(c * u)
 
 /-- `Force::MobilityConstantForceImpl::calcForce`, `MobilityDiscreteForceImpl::calcForce` -/
 def mobConstForce (f : K) : K := f
+/-- `MobilityLinearDamperImpl::calcPotentialEnergy` returns 0; `MobilityConstantForceImpl`, `MobilityDiscreteForceImpl`,
+`DiscreteForcesImpl` do not override `ForceImpl::calcPotentialEnergy` (returns 0); `GlobalDamperImpl` returns 0 -/
+def mobDamperPE : K := 0
+def mobConstPE : K := 0
+def globalDamperPE : K := 0
 
 def kmin (a b : K) : K := if b < a then b else a     -- std::min(a,b)
 def kmax (a b : K) : K := if a < b then b else a     -- std::max(a,b)
@@ -399,6 +414,463 @@ def docGravityPE (d : V3 K) (g hz : K) (bodies : List (GBody K)) : K :=
   bodies.foldl (fun pe b =>
     if b.immune then pe else pe + b.mass * g * (dot (b.X.apply b.com) (-d) - hz)) 0
 end Gravity
+
+/-! ## LinearBushing (`Force_LinearBushing.cpp`) -/
+section Bushing
+variable [OfNat K 1] [OfNat K 2]
+
+/-- six scalars, rotational then translational -/
+structure Vec6 (K : Type) where
+  r : V3 K
+  t : V3 K
+deriving Repr
+
+/-- `Rotation::setRotationToBodyFixedXYZ(cq, sq)` : `R = Rx(q0) Ry(q1) Rz(q2)` -/
+def bodyXYZ (c s : V3 K) : M33 K :=
+  let c0 := c.x; let c1 := c.y; let c2 := c.z; let s0 := s.x; let s1 := s.y; let s2 := s.z
+  ⟨⟨c1 * c2, -(c1 * s2), s1⟩,
+   ⟨s2 * c0 + s0 * s1 * c2, c0 * c2 - s0 * s1 * s2, -(s0 * c1)⟩,
+   ⟨s0 * s2 - s1 * (c0 * c2), s0 * c2 + s1 * (s2 * c0), c0 * c1⟩⟩
+
+/-- `Rotation::calcNForBodyXYZInBodyFrame(cq, sq)` (only elements 1 and 2 of `cq`,`sq` are referenced) -/
+def bushingN (c s : V3 K) : M33 K :=
+  let s1 := s.y; let c1 := c.y; let s2 := s.z; let c2 := c.z
+  let ooc1 := 1 / c1
+  let s2oc1 := s2 * ooc1; let c2oc1 := c2 * ooc1
+  ⟨⟨c2oc1, -s2oc1, 0⟩, ⟨s2, c2, 0⟩, ⟨-s1 * c2oc1, s1 * s2oc1, 1⟩⟩
+
+/-- everything `ensurePositionCacheValid` / `ensureVelocityCacheValid` / `ensureForceCacheValid` compute -/
+structure BushingOut (K : Type) where
+  X_FM : Pose K
+  q : Vec6 K
+  qdot : Vec6 K
+  f : Vec6 K
+  F_GB1 : SpF K
+  F_GB2 : SpF K
+  pe : K
+  power : K
+
+/-- `Force::LinearBushingImpl`: `qr` are the three body-fixed XYZ Euler angles extracted from `R_FM`
+(`convertRotationToBodyFixedXYZ`, libm `atan2`; supplied by the caller), `cq`,`sq` their cosines and sines. -/
+def bushing (X_GB1 X_GB2 : Pose K) (V_GB1 V_GB2 : Vel K) (X_B1F X_B2M : Pose K) (k c : Vec6 K)
+    (qr cq sq : V3 K) : BushingOut K :=
+  -- ensurePositionCacheValid
+  let X_GF := X_GB1.comp X_B1F
+  let X_GM := X_GB2.comp X_B2M
+  let X_FM : Pose K := ⟨X_GF.R.transpose.mul X_GM.R, X_GF.R.tmulVec (X_GM.p - X_GF.p)⟩
+  let p_B1F_G := X_GB1.R.mulVec X_B1F.p
+  let p_B2M_G := X_GB2.R.mulVec X_B2M.p
+  let p_FM_G := X_GF.R.mulVec X_FM.p
+  let q : Vec6 K := ⟨qr, X_FM.p⟩
+  -- ensureVelocityCacheValid
+  let V_GF : Vel K := ⟨V_GB1.w, V_GB1.v + cross V_GB1.w p_B1F_G⟩
+  let V_GM : Vel K := ⟨V_GB2.w, V_GB2.v + cross V_GB2.w p_B2M_G⟩
+  let V_FM_G : Vel K := ⟨V_GM.w - V_GF.w, V_GM.v - V_GF.v⟩
+  let V_FM : Vel K := ⟨X_GF.R.tmulVec V_FM_G.w, X_GF.R.tmulVec (V_FM_G.v - cross V_GF.w p_FM_G)⟩
+  let w_FM_M := X_FM.R.tmulVec V_FM.w
+  let N_FM := bushingN cq sq
+  let qdot : Vec6 K := ⟨N_FM.mulVec w_FM_M, V_FM.v⟩
+  -- ensureForceCacheValid
+  let fk : Vec6 K := ⟨⟨k.r.x * q.r.x, k.r.y * q.r.y, k.r.z * q.r.z⟩, ⟨k.t.x * q.t.x, k.t.y * q.t.y, k.t.z * q.t.z⟩⟩
+  let pe2 := fk.r.x * q.r.x + fk.r.y * q.r.y + fk.r.z * q.r.z + fk.t.x * q.t.x + fk.t.y * q.t.y + fk.t.z * q.t.z
+  let fv : Vec6 K := ⟨⟨c.r.x * qdot.r.x, c.r.y * qdot.r.y, c.r.z * qdot.r.z⟩,
+                      ⟨c.t.x * qdot.t.x, c.t.y * qdot.t.y, c.t.z * qdot.t.z⟩⟩
+  let power := fv.r.x * qdot.r.x + fv.r.y * qdot.r.y + fv.r.z * qdot.r.z
+             + fv.t.x * qdot.t.x + fv.t.y * qdot.t.y + fv.t.z * qdot.t.z
+  let f : Vec6 K := ⟨-(fk.r + fv.r), -(fk.t + fv.t)⟩
+  let fB2_q := f.r
+  let fM_F := f.t
+  let mB2_M := N_FM.tmulVec fB2_q
+  let mB2_G := X_GM.R.mulVec mB2_M
+  let fM_G := X_GF.R.mulVec fM_F
+  let F_GM : SpF K := ⟨mB2_G, fM_G⟩
+  let F_GF : SpF K := ⟨-(mB2_G + cross p_FM_G fM_G), -fM_G⟩
+  let F_GB2 : SpF K := ⟨F_GM.m + cross p_B2M_G F_GM.f, F_GM.f⟩
+  let F_GB1 : SpF K := ⟨F_GF.m + cross p_B1F_G F_GF.f, F_GF.f⟩
+  ⟨X_FM, q, qdot, f, F_GB1, F_GB2, pe2 / 2, power⟩
+
+/-- documented (Force_LinearBushing.h, Theory): `f_i = -(k_i*q_i + c_i*qdot_i)` -/
+def docBushingF (k c q qdot : Vec6 K) : Vec6 K :=
+  ⟨⟨-(k.r.x * q.r.x + c.r.x * qdot.r.x), -(k.r.y * q.r.y + c.r.y * qdot.r.y), -(k.r.z * q.r.z + c.r.z * qdot.r.z)⟩,
+   ⟨-(k.t.x * q.t.x + c.t.x * qdot.t.x), -(k.t.y * q.t.y + c.t.y * qdot.t.y), -(k.t.z * q.t.z + c.t.z * qdot.t.z)⟩⟩
+/-- documented: "Each contribution to potential energy is e_i = k_i*q_i^2/2" -/
+def docBushingPE (k q : Vec6 K) : K :=
+  k.r.x * (q.r.x * q.r.x) / 2 + k.r.y * (q.r.y * q.r.y) / 2 + k.r.z * (q.r.z * q.r.z) / 2
+  + k.t.x * (q.t.x * q.t.x) / 2 + k.t.y * (q.t.y * q.t.y) / 2 + k.t.z * (q.t.z * q.t.z) / 2
+/-- documented: "dissipate power at a rate p_i = c_i*qdot_i^2" -/
+def docBushingPower (c qdot : Vec6 K) : K :=
+  c.r.x * (qdot.r.x * qdot.r.x) + c.r.y * (qdot.r.y * qdot.r.y) + c.r.z * (qdot.r.z * qdot.r.z)
+  + c.t.x * (qdot.t.x * qdot.t.x) + c.t.y * (qdot.t.y * qdot.t.y) + c.t.z * (qdot.t.z * qdot.t.z)
+def Vec6.dot (a b : Vec6 K) : K := V3.dot a.r b.r + V3.dot a.t b.t
+end Bushing
+
+/-! ## Parameter changes and the force cache of `GeneralForceSubsystem` (kind D)
+
+`GeneralForceSubsystem::realizeSubsystemDynamicsImpl` re-uses the forces of elements whose
+`dependsOnlyOnPositions()` is true until `realizePosition` (or enable/disable) clears
+`cachedForcesAreValid`; writing a parameter invalidates the stage the parameter variable was allocated
+with. -/
+structure ElemCache (F : Type) where
+  /-- forces cached at the last position realization, if still valid -/
+  cached : Option F
+
+/-- realize Dynamics: what the subsystem adds for this element, and the cache afterwards -/
+def realizeDyn {P F : Type} (posOnly : Bool) (calcF : P → F) (params : P) (c : ElemCache F) : F × ElemCache F :=
+  if posOnly then
+    match c.cached with
+    | some f => (f, c)
+    | none => (calcF params, ⟨some (calcF params)⟩)
+  else (calcF params, c)
+
+/-- `updParams(state)`: the write invalidates Position (and so the cache) iff the variable was allocated
+with a stage ≤ Position -/
+def setParams {F : Type} (invalidatesPosition : Bool) (c : ElemCache F) : ElemCache F :=
+  if invalidatesPosition then ⟨none⟩ else c
+
+/-! ## Compliant contact (C37) -/
+section Contact
+variable [OfNat K 1] [OfNat K 2] [OfNat K 3] [OfNat K 4] [OfNat K 5] [LT K] [DecidableLT K] [LE K] [DecidableLE K]
+
+def kminc (a b : K) : K := if b < a then b else a     -- std::min(a,b)
+
+/-- Hollars' friction blend (HuntCrossleyForce.h, ElasticFoundationForce.h, SmoothSphereHalfSpaceForce.h):
+`min(vs/vt,1)*(ud+2(us-ud)/(1+(vs/vt)^2))+uv*vs`, `vrel = vs/vt` -/
+def hollars (us ud uv vrel vslip : K) : K :=
+  kminc vrel 1 * (ud + 2 * (us - ud) / (1 + vrel * vrel)) + uv * vslip
+
+/-- `HuntCrossleyForceImpl::Parameters` (stiffness is stored as `stiffness^(2/3)`) -/
+structure HCParams (K : Type) where
+  stiffness : K
+  dissipation : K
+  us : K
+  ud : K
+  uv : K
+
+/-- what `HuntCrossleyForceImpl::calcForce` reads of a `PointContact` -/
+structure PointContact (K : Type) where
+  location : V3 K
+  normal : V3 K
+  depth : K
+  radius : K
+
+/-- one contact with everything its force depends on -/
+structure HCContact (K : Type) where
+  b1 : Nat
+  b2 : Nat
+  p1 : HCParams K
+  p2 : HCParams K
+  c : PointContact K
+  X1 : Pose K
+  X2 : Pose K
+  V1 : Vel K
+  V2 : Vel K
+
+/-- combination rule `2 a b/(a+b)` guarded as in the C++ (`has… ? … : 0`) -/
+def combineMu (a b : K) : K :=
+  if (a < 0 ∨ 0 < a) ∨ (b < 0 ∨ 0 < b) then 2 * a * b / (a + b) else 0
+
+structure HCOut (K : Type) where
+  F1 : SpF K
+  F2 : SpF K
+  pe : K
+  /-- scalar normal force `f` (0 when `f <= 0`) -/
+  fn : K
+  /-- friction vector (part of the force on body 2) -/
+  fric : V3 K
+  vtangent : V3 K
+
+/-- body of the loop in `HuntCrossleyForceImpl::calcForce` for one `PointContact`;
+`F1`,`F2` are what is applied to the bodies of surface 1 and surface 2 -/
+def hcContact (sqrt : K → K) (transitionVelocity : K) (h : HCContact K) : HCOut K :=
+  let param1 := h.p1; let param2 := h.p2
+  let s1 := param2.stiffness / (param1.stiffness + param2.stiffness)
+  let s2 := 1 - s1
+  let depth := h.c.depth
+  let normal := h.c.normal
+  let location := h.c.location + smul (depth * (1 / 2 - s1)) normal
+  let k := param1.stiffness * s1
+  let c := param1.dissipation * s1 + param2.dissipation * s2
+  let radius := h.c.radius
+  let fH := 4 / 3 * k * depth * sqrt (radius * k * depth)
+  let pe := 2 / 5 * fH * depth
+  let station1 := h.X1.invApply location
+  let station2 := h.X2.invApply location
+  let v1 := stationVel h.X1 h.V1 station1
+  let v2 := stationVel h.X2 h.V2 station2
+  let v := v1 - v2
+  let vnormal := dot v normal
+  let vtangent := v - smul vnormal normal
+  let f := fH * (1 + 3 / 2 * c * vnormal)
+  if f ≤ 0 then ⟨SpF.zero, SpF.zero, pe, 0, V3.zero, vtangent⟩ else
+  let force0 := smul f normal
+  let vslip := sqrt (normSq vtangent)
+  let fric : V3 K :=
+    if vslip < 0 ∨ 0 < vslip then
+      let us := combineMu param1.us param2.us
+      let ud := combineMu param1.ud param2.ud
+      let uv := combineMu param1.uv param2.uv
+      let vrel := vslip / transitionVelocity
+      let ffriction := f * hollars us ud uv vrel vslip
+      divS (smul ffriction vtangent) vslip
+    else V3.zero
+  let force := force0 + fric
+  ⟨applyForceToBodyPoint h.X1 station1 (-force), applyForceToBodyPoint h.X2 station2 force, pe, f, fric, vtangent⟩
+
+/-- contributions `(body, spatial force)` of the whole contact list — the loop as the property requires it:
+every contact contributes independently (`continue`, not `return`, when `f <= 0`) -/
+def hcLoop (sqrt : K → K) (vt : K) (cs : List (HCContact K)) : List (Nat × SpF K) :=
+  cs.flatMap fun h => let o := hcContact sqrt vt h; [(h.b1, o.F1), (h.b2, o.F2)]
+
+/-- the reported potential energy: `pe += 2/5 fH depth` for every point contact -/
+def hcPE (sqrt : K → K) (vt : K) (cs : List (HCContact K)) : K :=
+  cs.foldl (fun pe h => pe + (hcContact sqrt vt h).pe) 0
+
+/-- total on body `b` of a contribution list -/
+def bodyTotal (b : Nat) (l : List (Nat × SpF K)) : SpF K :=
+  l.foldl (fun acc e => if e.1 = b then SpF.add acc e.2 else acc) SpF.zero
+
+/-- documented (HuntCrossleyForce.h): `k = (4/3) sqrt(R) E`, `E = (s1*E1^(2/3))^(3/2)`, `f = k x^(3/2) (1 + 3/2 c xdot)`;
+`e23 = s1·E1^(2/3)`; powers `a^(3/2)` written `a·√a` -/
+def docHertzForce (sqrt : K → K) (R e23 c x xdot : K) : K :=
+  let E := e23 * sqrt e23
+  let k := 4 / 3 * sqrt R * E
+  k * (x * sqrt x) * (1 + 3 / 2 * c * xdot)
+/-- documented: `pe = 2/5 k x^(5/2)` -/
+def docHertzPE (sqrt : K → K) (R e23 x : K) : K :=
+  let E := e23 * sqrt e23
+  let k := 4 / 3 * sqrt R * E
+  2 / 5 * k * (x * x * sqrt x)
+
+/-! ### Elastic foundation, per spring (`ElasticFoundationForceImpl::processContact`, loop body) -/
+structure EFParams (K : Type) where
+  stiffness : K
+  dissipation : K
+  us : K
+  ud : K
+  uv : K
+
+structure EFOut (K : Type) where
+  F1 : SpF K
+  F2 : SpF K
+  pe : K
+  f : K
+  fric : V3 K
+  forceDir : V3 K
+  vtangent : V3 K
+
+/-- one displaced spring: `nearestPoint` (Ground) on the other object, `springPosInGround`, `area` (already
+scaled by `areaScale`); body 1 carries the mesh -/
+def efSpring (sqrt : K → K) (transitionVelocity : K) (param : EFParams K) (area : K)
+    (nearestPoint springPosInGround : V3 K) (X1 X2 : Pose K) (V1 V2 : Vel K) : EFOut K :=
+  let displacement := nearestPoint - springPosInGround
+  let distance := sqrt (normSq displacement)
+  if ¬ (distance < 0) ∧ ¬ (0 < distance) then ⟨SpF.zero, SpF.zero, 0, 0, V3.zero, V3.zero, V3.zero⟩ else
+  let forceDir := divS displacement distance
+  let station1 := X1.invApply nearestPoint
+  let station2 := X2.invApply nearestPoint
+  let v1 := stationVel X1 V1 station1
+  let v2 := stationVel X2 V2 station2
+  let v := v2 - v1
+  let vnormal := dot v forceDir
+  let vtangent := v - smul vnormal forceDir
+  let f := param.stiffness * area * distance * (1 + param.dissipation * vnormal)
+  let force0 : V3 K := if 0 < f then smul f forceDir else V3.zero
+  let vslip := sqrt (normSq vtangent)
+  let fric : V3 K :=
+    if 0 < f ∧ (vslip < 0 ∨ 0 < vslip) then
+      let vrel := vslip / transitionVelocity
+      let ffriction := f * hollars param.us param.ud param.uv vrel vslip
+      divS (smul ffriction vtangent) vslip
+    else V3.zero
+  let force := force0 + fric
+  ⟨applyForceToBodyPoint X1 station1 force, applyForceToBodyPoint X2 station2 (-force),
+   param.stiffness * area * normSq displacement / 2, (if 0 < f then f else 0), fric, forceDir, vtangent⟩
+
+/-- documented (ElasticFoundationForce.h): `f = k*a*x*(1+c*v)` along the displacement direction -/
+def docEFForce (k a x c v : K) : K := k * a * x * (1 + c * v)
+
+/-! ### Hertz contact of `CompliantContactSubsystem` (`calcHertzContactForce`, circular: `e = 1`) -/
+def step5 (x : K) : K := let x3 := x * x * x; x3 * (2 * 5 + x * (2 * 3 * x - 3 * 5))
+
+/-- `stribeck(us,ud,uv,v)`: the friction coefficient used by `calcHertzContactForce` -/
+def stribeck (us ud uv v : K) : K :=
+  let mu_wet := uv * v
+  let mu_dry := if 3 ≤ v then ud else if 1 ≤ v then us - (us - ud) * step5 ((v - 1) / 2) else us * step5 v
+  mu_dry + mu_wet
+
+/-- effective friction coefficient `2ab/(a+b)` guarded `if (u != 0) u /= (a+b)` -/
+def combineMu2 (a b : K) : K :=
+  let u := 2 * a * b
+  if u < 0 ∨ 0 < u then u / (a + b) else u
+
+structure HertzMat (K : Type) where
+  k23 : K
+  c : K
+  us : K
+  ud : K
+  uv : K
+
+structure HertzOut (K : Type) where
+  valid : Bool
+  contactPt : V3 K
+  force : V3 K     -- on surface 2, at the contact point
+  pe : K
+  powerLoss : K
+  fNormal : K
+  fric : V3 K
+  velTangent : V3 K
+
+/-- `calcHertzContactForce` in the S1 frame: `normal_S1` away from surface 1, `origin_S1`, `depth`,
+relative velocity `(w12, v12)` of S2 in S1, `p12` origin of S2 in S1, effective radius `R`, correction `e`;
+`signif` is `SignificantReal` -/
+def hertzContact (sqrt : K → K) (signif vtrans : K) (mat1 mat2 : HertzMat K)
+    (normal origin : V3 K) (depth : K) (p12 w12 v12 : V3 K) (R e : K) : HertzOut K :=
+  if depth ≤ 0 then ⟨false, V3.zero, V3.zero, 0, 0, 0, V3.zero, V3.zero⟩ else
+  let k1 := mat1.k23; let k2 := mat2.k23
+  let c1 := mat1.c; let c2 := mat2.c
+  let s1 := k2 / (k1 + k2)
+  let s2 := 1 - s1
+  let x := depth
+  let contactPt := origin + smul (x * (1 / 2 - s1)) normal
+  let k := k1 * s1
+  let c := c1 * s1 + c2 * s2
+  let fH := e * (4 / 3) * k * x * sqrt (R * k * x)
+  let contactPt2 := contactPt - p12
+  let vel := v12 + cross w12 contactPt2
+  let xdot := -(dot vel normal)
+  let velNormal := smul (-xdot) normal
+  let velTangent := vel - velNormal
+  let fHC := fH * (3 / 2) * c * xdot
+  let fNormal := fH + fHC
+  if fNormal ≤ 0 then ⟨true, contactPt, V3.zero, 0, 0, 0, V3.zero, velTangent⟩ else
+  let forceH := smul fH normal
+  let forceHC := smul fHC normal
+  let potentialEnergy := 2 / 5 * fH * x
+  let powerHC := fHC * xdot
+  let vslipSq := normSq velTangent
+  let fricPair : V3 K × K :=
+    if signif * signif < vslipSq then
+      let vslip := sqrt vslipSq
+      let us := combineMu2 mat1.us mat2.us
+      let ud := combineMu2 mat1.ud mat2.ud
+      let uv := combineMu2 mat1.uv mat2.uv
+      let v := vslip * (1 / vtrans)
+      let mu := stribeck us ud (uv * vtrans) v
+      let fFriction := fNormal * mu
+      (smul (-fFriction / vslip) velTangent, fFriction * vslip)
+    else (V3.zero, 0)
+  let forceLoss := forceHC + fricPair.1
+  let forceTotal := forceH + forceLoss
+  ⟨true, contactPt, forceTotal, potentialEnergy, powerHC + fricPair.2, fNormal, fricPair.1, velTangent⟩
+
+/-- `findRelativeVelocity(X_GS1, V_GS1, X_GS2, V_GS2)`: velocity of S2 in S1, expressed in S1 -/
+def findRelativeVelocity (X_FA : Pose K) (V_FA : Vel K) (X_FB : Pose K) (V_FB : Vel K) : Vel K :=
+  let p_AB_F := X_FB.p - X_FA.p
+  let w := V_FB.w - V_FA.w
+  let pdot := V_FB.v - V_FA.v
+  let v := pdot - cross V_FA.w p_AB_F
+  ⟨X_FA.R.tmulVec w, X_FA.R.tmulVec v⟩
+
+/-- `findFrameVelocityInGround(state, X_BS)` -/
+def frameVel (X : Pose K) (V : Vel K) (X_BS : Pose K) : Vel K := ⟨V.w, stationVel X V X_BS.p⟩
+
+/-- `CompliantContactSubsystemImpl::realizeSubsystemDynamicsImpl` for one contact force given in Ground:
+contact point `cp`, force on surface 2 `f` (pure force): returns (on body 1, on body 2) -/
+def compliantApply (cp f : V3 K) (X1 X2 : Pose K) : SpF K × SpF K :=
+  let r1 := cp - X1.p
+  let r2 := cp - X2.p
+  (⟨-(V3.zero : V3 K) + cross r1 (-f), -f⟩, ⟨V3.zero + cross r2 f, f⟩)
+
+/-! ### SmoothSphereHalfSpaceForce -/
+structure SmoothParams (K : Type) where
+  stiffness : K
+  dissipation : K
+  us : K
+  ud : K
+  uv : K
+  vt : K
+  cf : K
+  bd : K
+  bv : K
+
+structure SmoothOut (K : Type) where
+  F1 : SpF K      -- on the sphere body
+  F2 : SpF K      -- on the half-space body
+  pe : K
+  indentation : K
+  vnormal : K
+  fh_smooth : K
+  fhc_smooth : K
+  fric : V3 K
+  vtangent : V3 K
+  normal : V3 K
+
+/-- `SmoothSphereHalfSpaceForceImpl::calcForce`; `Xs`,`Vs` sphere body, `Xh`,`Vh` half-space body,
+`loc` sphere centre station, `Xhs` half-space frame in its body, `radius` -/
+def smoothSphere (sqrt tanh : K → K) (pow : K → K → K) (P : SmoothParams K)
+    (Xs Xh : Pose K) (Vs Vh : Vel K) (loc : V3 K) (Xhs : Pose K) (radius : K) : SmoothOut K :=
+  let locInHalf := Xh.invApply (Xs.apply loc)
+  let dist := locInHalf - Xhs.p
+  let indentation := -(dot dist (-(Xhs.R.col0)) - radius)
+  let originG := Xs.apply loc
+  let normal := Xh.R.mulVec Xhs.R.col0
+  let contactPoint := originG + smul radius normal
+  let contactPointAdj := contactPoint - smul (1 / 2 * indentation) normal
+  let station1 := Xs.invApply contactPointAdj
+  let station2 := Xh.invApply contactPointAdj
+  let v1 := stationVel Xs Vs station1
+  let v2 := stationVel Xh Vh station2
+  let v := v1 - v2
+  let vnormal := dot v normal
+  let vtangent := v - smul vnormal normal
+  let k := 1 / 2 * pow P.stiffness (2 / 3)
+  let fh_pos := 4 / 3 * k * sqrt (radius * k) * pow (sqrt (indentation * indentation + P.cf)) (3 / 2)
+  let fh_smooth := fh_pos * (1 / 2 + 1 / 2 * tanh (P.bd * indentation))
+  let pe := 2 / 5 * fh_smooth * indentation
+  let c := P.dissipation
+  let fhc_pos := fh_smooth * (1 + 3 / 2 * c * vnormal)
+  let fhc_smooth := fhc_pos * (1 / 2 + 1 / 2 * tanh (P.bv * (vnormal + 2 / (3 * c))))
+  let force0 := smul fhc_smooth normal
+  let aux := normSq vtangent + P.cf
+  let vslip := sqrt aux
+  let vrel := vslip / P.vt
+  let ff := fhc_smooth * hollars P.us P.ud P.uv vrel vslip
+  let fric := divS (smul ff vtangent) vslip
+  let force := force0 + fric
+  ⟨applyForceToBodyPoint Xs station1 (-force), applyForceToBodyPoint Xh station2 force, pe,
+   indentation, vnormal, fh_smooth, fhc_smooth, fric, vtangent, normal⟩
+
+/-- documented (SmoothSphereHalfSpaceForce.h): `fh_pos = (4/3) k (R k)^(1/2) ((x^2+cf)^(1/2))^(3/2)`,
+`fh_smooth = fh_pos (1/2+(1/2)tanh(bd x))`, `fhc_pos = fh_smooth (1+(3/2) c v)`,
+`fhc_smooth = fhc_pos (1/2+(1/2) tanh(bv (v+(2/(3 c)))))`, `k = 0.5 E^(2/3)` -/
+def docSmoothNormal (sqrt tanh : K → K) (pow : K → K → K) (E c cf bd bv R x v : K) : K :=
+  let k := 1 / 2 * pow E (2 / 3)
+  let fh_pos := 4 / 3 * k * sqrt (R * k) * pow (sqrt (x * x + cf)) (3 / 2)
+  let fh_smooth := fh_pos * (1 / 2 + 1 / 2 * tanh (bd * x))
+  let fhc_pos := fh_smooth * (1 + 3 / 2 * c * v)
+  fhc_pos * (1 / 2 + 1 / 2 * tanh (bv * (v + 2 / (3 * c))))
+
+/-! ### ExponentialSpringForce, normal force (`calcNormalForce`) -/
+structure ExpOut (K : Type) where
+  fzElas : K
+  fzDamp : K
+  fz : K
+
+/-- `ExponentialSpringForceImpl::calcNormalForce`: `pz`,`vz` station height and normal speed in the contact plane -/
+def expNormal (exp : K → K) (d0 d1 d2 kvNorm maxNormalForce pz vz : K) : ExpOut K :=
+  let fzElas := d1 * exp (-d2 * (pz - d0))
+  let fzDamp := -kvNorm * vz * fzElas
+  let fz := fzElas + fzDamp
+  let o1 : ExpOut K := if fz < 0 then ⟨fzElas, -fzElas, 0⟩ else ⟨fzElas, fzDamp, fz⟩
+  if maxNormalForce < o1.fz then ⟨maxNormalForce - o1.fzDamp, o1.fzDamp, maxNormalForce⟩ else o1
+
+/-- documented (ExponentialSpringForce.h): `fz = d₁exp(−d₂(pz−d₀)) (1 − cz vz)` -/
+def docExpNormal (exp : K → K) (d0 d1 d2 cz pz vz : K) : K := d1 * exp (-(d2 * (pz - d0))) * (1 - cz * vz)
+
+/-- station height and normal speed: `p_P = ~X_GP * p_G`, `v_P = ~R_GP * v_G` -/
+def expStationKin (X_GP X : Pose K) (V : Vel K) (station : V3 K) : K × K :=
+  ((X_GP.invApply (X.apply station)).z, (X_GP.R.tmulVec (stationVel X V station)).z)
+end Contact
 
 end Ops
 end ForceLaws
